@@ -76,6 +76,27 @@ import PycsepVerif.PyPrelude
     `try: x = f(…) except (E1, …): H`   around ONE call of an opaque raising function: `PySM.tryCatch` — H (which may
                                 `continue`) runs when the call raised one of the named classes, other exceptions go on;
                                 x is not bound in H
+                                (also `x = <expression with exactly one raising operation>`; H may assign instead of `continue`)
+    `with open(p, mode, newline='') as f` + `csv.DictWriter(f, fieldnames=names, delimiter=',')`
+                                the file is the hidden stream `file'` : the list of its records (lists of opaque `Cell`s);
+                                `PySM.openForWrite mode file'` ('a' keeps, 'w' empties); `writer.writeheader()` appends the
+                                names as cells, `writer.writerow({...})` appends `PySM.dictRow names d restval` (ValueError
+                                for a key that is no field name); a dict display `{'k': v, …}` is the list of its
+                                (key, cell) pairs, each value injected into `Cell` by the opaque injection of its type
+                                (TARGETS.cell_of); quoting / line ends are the csv writer's layer, not this one
+    `self.catalog[name]`        name known at run time: opaque `TARGETS.dyn_column` (ValueError: no such field)
+    `[x] * n`, `zip(a, b, c, …)`   `List.replicate n x`; right-nested `List.zip` (stops at the shortest)
+    TARGETS.opaque_exprs        an expression that matches a declared pattern (one hole `_`) is ONE opaque function of the
+                                sub-expression in the hole; the pattern pins the text of the expression
+    TARGETS.str_as              a str where an opaque value is expected (ids: bytes or str) = opaque injection
+    dicts (`DICT`)              the list of (key, value) pairs in insertion order: `{}`, `d[k] = v` = `PySM.dictSet`
+                                (replaces in place / appends), `d.items()`, `d[k].append(x)` = `PySM.dictAppend` for a dict
+                                whose values are of two declared kinds (`A ⊕ List B`; a value is injected by its type);
+                                `self.__dict__` = a declared field of that type
+    `callable(v)`, `hasattr(v, 'name')`   on an opaque value: opaque predicates (TARGETS.rec_preds)
+    `k.startswith(p)`, `k[n:]`, `k in [names]`, `list(xs)`   `PySM.strStartsWith`, `PySM.strDrop`, `List.contains`, `xs`
+    `try: x = E except: pass finally: F`   a bare except catches everything Python raises (`PySM.catchesAll`), x keeps its
+                                value, then F
     `zip_longest(*[g()] * k)`   g a nested generator declared opaque (its items are a parameter): `PySM.chunksLongest k`,
                                 groups of k items as lists of Optionals, the last one filled with None
     `None in t`, `f(*t)`        on such a group: `List.any Option.isNone`; an opaque f declared `star` takes the list
@@ -196,6 +217,47 @@ def chunksLongestAux {β : Type} (k : Nat) : Nat → List β → List (List (Opt
     (g.map some ++ List.replicate (k - g.length) none) :: chunksLongestAux k fuel ((x :: xs).drop k)
 def chunksLongest {β : Type} (k : Nat) (xs : List β) : List (List (Option β)) :=
   if k = 0 then [] else chunksLongestAux k xs.length xs
+
+/-- `open(name, mode, newline='')` of a file that is then written through a csv writer; the file is the list of its
+    records: mode 'a' keeps what is there, 'w' starts empty (any other mode: ValueError — not a mode for writing here) -/
+def openForWrite {β : Type} (mode : String) (old : List β) : M (List β) :=
+  if mode == "a" then .ok old else if mode == "w" then .ok [] else .error (.py .valueError)
+
+/-- the record `csv.DictWriter(f, fieldnames).writerow(d)` writes for the dict display `d` (keys in the order written, no
+    key twice): ValueError when `d` has a key that is not a field name (`extrasaction='raise'`), else the cells in the order
+    of the field names, `restval` for a field `d` does not have -/
+def dictRow {β : Type} (fieldnames : List String) (d : List (String × β)) (restval : β) : M (List β) :=
+  if d.all (fun kv => fieldnames.contains kv.1) then
+    .ok (fieldnames.map fun k => ((d.find? fun kv => kv.1 == k).map (·.2)).getD restval)
+  else .error (.py .valueError)
+
+/-- `s[n:]` and `s.startswith(p)` on a str, on its code points -/
+def strDrop (s : String) (n : Nat) : String := String.ofList (s.toList.drop n)
+def strStartsWith (s p : String) : Bool := p.toList.isPrefixOf s.toList
+
+/-! ## dicts with str keys: the list of (key, value) pairs in insertion order, no key twice -/
+
+/-- `d[k] = v`: the value of an existing key is replaced where it stands, a new key goes to the end -/
+def dictSet {β : Type} : List (String × β) → String → β → List (String × β)
+  | [], k, v => [(k, v)]
+  | (k', v') :: rest, k, v => if k' == k then (k', v) :: rest else (k', v') :: dictSet rest k v
+
+/-- `d[k].append(x)` for a dict whose values are of two kinds, the second being lists: KeyError without the key,
+    AttributeError when the entry is of the first kind -/
+def dictAppend {α β : Type} : List (String × (α ⊕ List β)) → String → β → M (List (String × (α ⊕ List β)))
+  | [], _, _ => .error .keyError
+  | (k', v') :: rest, k, x =>
+    if k' == k then
+      match v' with
+      | .inr l => .ok ((k', .inr (l ++ [x])) :: rest)
+      | .inl _ => .error .attributeError
+    else Except.bind (dictAppend rest k x) fun r => .ok ((k', v') :: r)
+
+/-- a bare `except:` catches every Python exception (the two non-Python outcomes of this embedding go on) -/
+def catchesAll : Exc → Bool
+  | .rngExhausted => false
+  | .outOfFuel => false
+  | _ => true
 
 /-- `try: x = f(…) except (E1, E2): H` around ONE call: the handler runs when the call raised one of the named classes
     (`catches`), any other exception goes on -/
